@@ -6,7 +6,7 @@ type advPeer struct {
 	id int
 }
 
-func newAdvPeer(a *Adversary, id int) *advPeer { return &advPeer{a: a, id: id} }
+func newAdvPeer(a *Adversary, id int) *advPeer                 { return &advPeer{a: a, id: id} }
 func (p *advPeer) start()                                      {}
 func (p *advPeer) onMessage(from int, typ int, payload []byte) {}
 func (p *advPeer) onHTLC(pm *Payment, inv *Invoice) string     { return "settle" }
